@@ -50,6 +50,9 @@ s=s.replace(old,"""  return;
 // REGISTER""").replace("  VOTCA_VERIF_EVENT(203, this, 1);  // loaded\n","  VOTCA_VERIF_EVENT(203, this, 1);  // loaded\n  this->ReleaseProgFile(thread);\n")'
 # (= seeded C10-6) needs a restart of a FINISHED run: no AVAILABLE job at start-up, matching pattern
 run more-jobs-only-if-some-available $PO 's=s.replace("  if (jobs_.size() > 0) {\n    moreJobsAvailable_ = true;","  if (std::any_of(jobs_.begin(), jobs_.end(), [](const Job &j) { return j.isAvailable(); })) {\n    moreJobsAvailable_ = true;").replace("#include <fstream>\n","#include <algorithm>\n#include <fstream>\n",1)'
+# (= seeded C10-8) visible only if a restart pattern names the CURRENT status of the last job of a full chunk:
+# stat(FAILED) with a job failing in this run, or stat(ASSIGNED) with two worker threads
+run cursor-stays-on-last-job-of-full-chunk $PO 's=s.replace("    ++metajit_;\n  }\n  VOTCA_VERIF_EVENT(205","    if (int(jobsToProc_.size()) < cacheSize) ++metajit_;\n  }\n  VOTCA_VERIF_EVENT(205")'
 echo "--- negative controls: property-preserving changes, expected rc=0 and drift>0"
 run NEG-cache-off-by-one-is-not-a-clause-of-C10 $PO 's=s.replace("while (int(jobsToProc_.size()) < cacheSize) {","while (int(jobsToProc_.size()) <= cacheSize) {")'
 run NEG-assign-before-backup $PO 'a=s.index("  // ASSIGN NEW JOBS IF AVAILABLE")
